@@ -188,10 +188,59 @@ def suite_vec(tier, seed):
     return cached_suite('vec', tier, seed, compute)
 
 
+def fault_configs(tier):
+    q = [
+        ('ft_s2_TR_amcled', 'TR', 'amcled', [('small', 2, 'u32')]),
+        ('ft_s2_NTR_stdlike', 'NTR', 'stdlike', [('small', 2, 'u32')]),
+        ('ft_v_NTR_amcled', 'NTR', 'amcled', [('vector', 0, 'u32')]),
+        ('ft_f3_NTR', 'NTR', 'stdlike', [('fixed', 3)]),
+    ]
+    t = [
+        ('ft_v_TR_withrealloc', 'TR', 'withrealloc', [('vector', 0, 'u32')]),
+        ('ft_s3_NTR_withrealloc', 'NTR', 'withrealloc', [('small', 3, 'u32')]),
+        ('ft_s1_TR_stdlike', 'TR', 'stdlike', [('small', 1, 'u32')]),
+        ('ft_f2_TR', 'TR', 'stdlike', [('fixed', 2)]),
+        ('ft_s2_NTRM_amcled', 'NTRM', 'amcled', [('small', 2, 'u32')]),
+        ('ft_p_s2_NTR_amcled', 'NTR', 'amcled', [('small', 2, 'u32')] * 2),
+    ]
+    lst = q + (t if tier == 'thorough' else [])
+    return [ImplCfg(n, e, a, s) for n, e, a, s in lst]
+
+
+def suite_fault(tier, seed):
+    def compute(d):
+        cfgs = fault_configs(tier)
+        jobs = []
+        for cfg in cfgs:
+            if len(cfg.slots) == 1:
+                params = dict(params_vec1(tier))
+                params['MaxLen'] = 3 if tier == 'quick' else 4
+                params['Its'] = ['ptr', 'input'] if tier == 'quick' else ['ptr', 'input', 'bidir', 'move']
+            else:
+                params = params_vec2(tier)
+            jobs.append((cfg, params))
+        uniq = {}
+        for cfg, params in jobs:
+            uniq.setdefault(json.dumps([cfg.model(), params], sort_keys=True), (cfg, params))
+        vlib.pmap_proc(vecpipe.mc_export_job, [(d, cp[0].model(), cp[1], cp[0].name) for cp in uniq.values()], workers=6)
+
+        def one(job):
+            cfg, params = job
+            md, info = vecpipe.mc_export(d, cfg.model(), params, cfg.name)
+            script, finfo = vecpipe.fault_script(md, max_probes=None if tier == 'thorough' else 6000, seed=seed)
+            r = run_cfg_script(d, cfg, script, 'faults', batch=300)
+            r['mc'] = info
+            r['fault_info'] = finfo
+            r['kind'] = 'fault'
+            return r
+        return dict(results=pmap(one, jobs, workers=8))
+    return cached_suite('fault', tier, seed, compute)
+
+
 # ------------------------------------------------------------------------------------------------------------------
 VEC_PROPS = {'C01', 'C02', 'C05', 'C06', 'C07', 'C10'}
 
-RELEVANT_STAT = {'C01': 'ops', 'C02': 'prims', 'C05': 'pristineOps', 'C06': 'allocEvents', 'C07': 'stable', 'C10': 'alias'}
+RELEVANT_STAT = {'C09': 'faults', 'C01': 'ops', 'C02': 'prims', 'C05': 'pristineOps', 'C06': 'allocEvents', 'C07': 'stable', 'C10': 'alias'}
 
 
 def make_replay(prop, r, v):
@@ -256,10 +305,23 @@ def evidence_vec(prop, res, extra_notes=None):
 
 
 def run_property(prop, tier, seed):
-    if prop in VEC_PROPS:
-        res = suite_vec(tier, seed)
+    if prop in VEC_PROPS or prop == 'C09':
+        res = suite_vec(tier, seed) if prop != 'C09' else dict(results=[], wall=0, cached=True)
+        if prop in ('C09', 'C02', 'C06'):
+            fr = suite_fault(tier, seed)
+            res = dict(results=res['results'] + fr['results'], wall=res.get('wall', 0) + fr.get('wall', 0),
+                       cached=res.get('cached') and fr.get('cached'))
         viols, merr = collect(prop, res['results'])
         ev = evidence_vec(prop, res)
+        if prop == 'C09':
+            ev['level'] = 'fault_enumeration'
+            nf = sum(r['stats'].get('faults', 0) for r in res['results'])
+            npr = sum(r.get('fault_info', {}).get('probes', 0) for r in res['results'])
+            ev['coverage'].update(evaluations=sum(r['stats'].get('execs', 0) for r in res['results']), distinct_nontrivial=nf,
+                                  rule='one probe per (reachable state, call) edge of the TLC model whose call can throw; each probe is '
+                                       're-executed with the k-th throwing event (element construction / copy / copy assignment, allocator '
+                                       'call) failing for k = 1, 2, ... until the call completes; distinct_nontrivial counts the executions '
+                                       'in which a failure was actually injected and the outcome judged by TLC', probes=npr)
         return dict(violations=viols, model_errors=merr, evidence=ev,
                     summary='configs=%d ops=%d transitions=%d drift=%d' % (
                         len(res['results']), ev['coverage']['ops_validated'], ev['coverage']['transitions'],
